@@ -20,6 +20,8 @@ HEAP_MAX = 8
 DEFAULT_BUDGET = 60_000_000  # PY_START events per library call (hang verdict)
 
 
+T2_FLOAT_BINARY = os.environ.get("VERIF_T2_FLOAT", "1") == "1"
+T2_CURVED_BINARY = os.environ.get("VERIF_T2_CURVED", "0") == "1"
 CALL_WALL = 150  # seconds: wall-clock backstop per library call (harness error, never a verdict)
 
 
@@ -509,8 +511,10 @@ class World:
             if exact and good and not isinstance(a.V, str) and not isinstance(b.V, str):
                 exact = kernel.crossings_max_denominator(a.V, b.V) <= 10**9
             binary_t2 = exact and good
-            if good and not exact and os.environ.get("VERIF_T2_FLOAT") == "1" and tol is not None:
-                if not tol.curved or os.environ.get("VERIF_T2_CURVED") == "1":
+            if good and not exact and T2_FLOAT_BINARY and tol is not None:
+                # float polygons (and, when enabled, curved boundaries): compared with the
+                # tolerances of DESIGN 3.1 instead of exactly
+                if not tol.curved or T2_CURVED_BINARY:
                     binary_t2 = True
             self.stats.inc(f"position:{pos}")
         return {"tol": tol, "exact": exact, "good_position": good, "binary_t2": binary_t2}
